@@ -40,6 +40,8 @@ def run(chk):
     from lib import opkind
     opkind.run(chk, A["emit"], floor=150)
     opkind.run(chk, xemit, floor=30)
+    from lib import sentinel
+    sentinel.run_units(chk)
 
     return chk.finish(
         level="other",
